@@ -67,6 +67,7 @@ def parse_cases(path):
             st["hdr"].append(line.rstrip("\n"))
         elif k == "P":
             st["eng"] = p[2]
+            st["policy"] = p[3]
             st["hdr"].append(line.rstrip("\n"))
         elif k == "W":
             st["W"] = unhl(p[3])
@@ -216,7 +217,13 @@ def oracle(stores, cases, impl):
                         exp.append((raw, b"v" + raw))
             else:
                 ct = {"hash": "h", "set": "s", "zset": "z"}.get(typ)
-                for raw in sorted(raws, key=lambda r: (len(r), r)):      # element keys carry a 2-byte key length
+                # element keys carry a 2-byte length of the stored key; under the compact TTL policy the stored key
+                # is the memcomparable (8-byte groups) encoding of key+version, so its length grows per group
+                if st.get("policy") == "compact":
+                    korder = lambda r: (len(r[len(pre):]) // 8, r)
+                else:
+                    korder = lambda r: (len(r), r)
+                for raw in sorted(raws, key=korder):
                     k = raw[len(pre):]
                     if match and not glob_match(match, k):
                         continue
